@@ -27,7 +27,7 @@ type Case struct {
 var names = []string{"x", "y", "v", "p", "k"}
 
 func baseData() map[string]interface{} {
-	return map[string]interface{}{"one": []interface{}{"e1"}, "g": "G0"}
+	return map[string]interface{}{"one": []interface{}{"e1"}, "two": []interface{}{1, 2}, "g": "G0"}
 }
 
 func run(r *vk.Run, prog []model.Node, partials map[string][]model.Node, class string) *vk.Fail {
@@ -125,6 +125,7 @@ func let(n, v string) model.Node { return model.Code{S: model.LetS{Name: n, X: m
 type builder struct {
 	partials map[string][]model.Node
 	seq      int
+	repeat   map[int]bool // levels whose construct is entered twice
 }
 
 func (b *builder) next(prefix string) string {
@@ -186,6 +187,13 @@ var kindNames = []string{"for", "fn", "partial", "contentFor/Of", "block-helper"
 // nest builds a fixed pattern: at every level shadow x, add a fresh name,
 // bind one pool name through the construct, and probe everything before,
 // inside and after.
+// twice wraps nodes in a loop of two iterations that binds nothing of its own
+// except a unique loop variable: whatever construct is inside is ENTERED TWICE
+// under the same enclosing scope, and must start from scratch the second time.
+func (b *builder) twice(ns []model.Node) []model.Node {
+	return []model.Node{T("{2x:"), model.EmitFor{For: &model.For{Val: b.next("rep"), Iter: model.Var{Name: "two"}, Body: ns}}, T("}")}
+}
+
 func (b *builder) nest(kinds []int, level int, binds []string) []model.Node {
 	all := append(append([]string{}, names...), "g")
 	lv := fmt.Sprintf("L%d", level)
@@ -199,7 +207,11 @@ func (b *builder) nest(kinds []int, level int, binds []string) []model.Node {
 	out = append(out, probe("x"), probe("y"))
 	if len(kinds) > 0 {
 		inner := b.nest(kinds[1:], level+1, binds[1:])
-		out = append(out, b.construct(kinds[0], binds[0], binds[0]+"@"+lv, inner)...)
+		cons := b.construct(kinds[0], binds[0], binds[0]+"@"+lv, inner)
+		if b.repeat[level] {
+			cons = b.twice(cons)
+		}
+		out = append(out, cons...)
 		out = append(out, T("|after:"))
 		out = append(out, probes(all...)...)
 	}
@@ -234,7 +246,11 @@ func (g *rgen) nodes(depth int) []model.Node {
 				bind := rapid.SampledFrom(append([]string{""}, names...)).Draw(t, "bind")
 				kind := rapid.IntRange(0, 4).Draw(t, "kind")
 				out = append(out, T("("))
-				out = append(out, g.b.construct(kind, bind, fmt.Sprintf("B%d", g.n), g.nodes(depth-1))...)
+				cons := g.b.construct(kind, bind, fmt.Sprintf("B%d", g.n), g.nodes(depth-1))
+				if rapid.IntRange(0, 2).Draw(t, "twice") == 0 {
+					cons = g.b.twice(cons)
+				}
+				out = append(out, cons...)
 				out = append(out, T(")"))
 			}
 		}
@@ -244,11 +260,11 @@ func (g *rgen) nodes(depth int) []model.Node {
 	return out
 }
 
-const rule = "scope constructs {for, user function defined and called on the spot, partial with data, contentFor + contentOf with data in one scope, block helper rendering its block with BlockWith on a fresh child context}; names {x, y, v, p, k} bound by let (fresh and shadowing), and through the construct itself (loop variable / parameter / data key equal to a name that is let-bound outside); probes <%= if (n) { %>[n=<%= n %>]<% } else { %>[n=-]<% } %> for every name before, inside and after each construct. (E) every nesting of 1, 2 and 3 constructs (5 + 25 + 125) x 3 binding patterns with a fixed let/probe pattern at every level; (R) random let/probe/construct sequences nested to depth 3. Oracle: environment-chain reference interpreter (each construct is a child scope; lets and bound names vanish when it ends; outer names stay readable and unchanged; top-level let persists). Non-trivial: every case nests at least one construct (distinct by template + partial texts)."
+const rule = "scope constructs {for, user function defined and called on the spot, partial with data, contentFor + contentOf with data in one scope, block helper rendering its block with BlockWith on a fresh child context}; names {x, y, v, p, k} bound by let (fresh and shadowing), and through the construct itself (loop variable / parameter / data key equal to a name that is let-bound outside); probes <%= if (n) { %>[n=<%= n %>]<% } else { %>[n=-]<% } %> for every name before, inside and after each construct. (E) every nesting of 1, 2 and 3 constructs (5 + 25 + 125) x 4 binding patterns x every subset of levels whose construct is ENTERED TWICE (wrapped in a two-iteration loop that binds nothing else), with a fixed let/probe pattern at every level; (R) random let/probe/construct sequences nested to depth 3. Oracle: environment-chain reference interpreter (each construct is a child scope; lets and bound names vanish when it ends; outer names stay readable and unchanged; top-level let persists). Non-trivial: every case nests at least one construct (distinct by template + partial texts)."
 
 func setup(t *testing.T) *vk.Run {
 	r := vk.Start(t, "C09", rule,
-		"loops run a single iteration so that let-persistence across iterations (not fixed by the statement) cannot matter",
+		"loops that bind names run a single iteration; constructs are re-entered through a two-iteration wrapper loop that lets nothing itself; reading a name let-bound in an earlier iteration of the same loop is Unspecified in the model",
 		"functions are defined immediately before their call, so lexical and dynamic resolution of free names agree; contentFor and contentOf are used in the same scope",
 		"if blocks and plain Block() helpers are not scopes and are not used as such; bare assignment inside a scope is not used")
 	r.Replayer("scope", func(raw json.RawMessage) *vk.Fail {
@@ -298,20 +314,32 @@ func TestProp(t *testing.T) {
 				if r.Quick() && depth == 3 && (code+len(pat[0]))%2 == 1 {
 					continue
 				}
-				if r.Mine(cells) {
-					b := &builder{partials: map[string][]model.Node{}}
-					prog := b.nest(kinds, 0, pat[:depth])
-					var kn []string
-					for _, k := range kinds {
-						kn = append(kn, kindNames[k])
+				for mask := 0; mask < 1<<depth; mask++ {
+					if r.Quick() && depth == 3 && mask != 0 && mask != 2 && mask != 7 {
+						continue
 					}
-					r.Check(run(r, prog, b.partials, "nest/"+strings.Join(kn, ">")))
+					if r.Mine(cells) {
+						b := &builder{partials: map[string][]model.Node{}, repeat: map[int]bool{}}
+						for l := 0; l < depth; l++ {
+							b.repeat[l] = mask&(1<<l) != 0
+						}
+						prog := b.nest(kinds, 0, pat[:depth])
+						var kn []string
+						for l, k := range kinds {
+							n := kindNames[k]
+							if b.repeat[l] {
+								n += "x2"
+							}
+							kn = append(kn, n)
+						}
+						r.Check(run(r, prog, b.partials, "nest/"+strings.Join(kn, ">")))
+					}
+					cells++
 				}
-				cells++
 			}
 		}
 	}
-	r.Subspace("every nesting of 1..3 scope constructs (5+25+125) x 4 binding patterns (quick: half of depth 3)", cells, !r.Quick())
+	r.Subspace("every nesting of 1..3 scope constructs (5+25+125) x 4 binding patterns x every subset of levels entered twice (quick: half of depth 3, 3 of 8 subsets there)", cells, !r.Quick())
 
 	r.Rapid("random", r.Pick(3000, 40000), func(t *rapid.T) *vk.Fail {
 		g := &rgen{t: t, b: &builder{partials: map[string][]model.Node{}}}
